@@ -41,6 +41,7 @@ class Ctx(object):
         self.sites_inspected = 0
         self._an = {}
         self._gr = {}
+        self._cg = None
         self.notes = []
 
     # ---- lookups -------------------------------------------------------------------------
@@ -59,6 +60,13 @@ class Ctx(object):
             a = flow.Analyzer(body, self.prog)
             self._an[body.key] = a
         return a
+
+    @property
+    def cg(self):
+        if self._cg is None:
+            from . import callgraph
+            self._cg = callgraph.CallGraph(self.prog)
+        return self._cg
 
     def graph(self, body, flags=None):
         k = (body.key, tuple(flags or ()))
